@@ -21,7 +21,10 @@
       prune_automorphisms=True: WHICH mappings survive depends on VF2's enumeration order (the first one per host node
         set); what does not depend on it -- orientation, last_size, subsets tried and the SET of host node sets that
         keep a representative -- is modelled                                        [host_set, host_sets, run_matcher_auto]
-    Not modelled: the representative kept under prune_automorphisms, mcs_mol (keeps VF2's first isomorphism). *)
+      find_common_subgraph(mcs_mol=True) / _find_mcs_mol: WHICH isomorphism maps a component onto its partner is VF2's
+        choice; which components are matched with which (greedy, size-sorted, first unused isomorphic partner of the same
+        size), last_size and the number of matcher objects are modelled                 [mol_pairs, find_mcs_mol_pairs]
+    Not modelled: the representative kept under prune_automorphisms, the isomorphism chosen inside a matched pair of mcs_mol. *)
 From Coq Require Import List NArith ZArith Bool Arith.
 From SK Require Import lib.Tok lib.LGraph lib.Mono lib.Reach.
 Import ListNotations.
@@ -259,6 +262,48 @@ Definition find_rc_component (defs : list N) (prune : bool) (wc : N) (g1 g2 : gr
   let '(combined, tried) := componentwise (node_match defs) edge_match (prune_graph prune wc g1) (prune_graph prune wc g2) mcs in
   {| r_maps := [combined]; r_last := length combined; r_tried := tried; r_pattern_is_g1 := true |}.
 
+(* ---------- find_common_subgraph(mcs_mol=True): greedy matching of whole components ---------- *)
+Section Mol.
+Variable nm : option nattr -> option nattr -> bool.
+Variable em : eattr -> eattr -> bool.
+
+(** GraphMatcher(G1.subgraph(c1), G2.subgraph(c2)).is_isomorphic() for components of equal size *)
+Definition comp_iso (g1 g2 : graph) (c1 c2 : list N) : bool :=
+  match monos c1 c2 (label g1) (label g2) (LGraph.adj g1) (LGraph.adj g2) nm em true with
+  | [] => false
+  | _ :: _ => true
+  end.
+
+Definition set_used (c : list N) (used : list (list N)) : bool :=
+  existsb (fun d => forallb (fun x => LGraph.mem x d) c && forallb (fun x => LGraph.mem x c) d) used.
+
+(** inner loop: first unused component of G2 of the same size that is isomorphic; counts the matcher objects built *)
+Fixpoint mol_find (g1 g2 : graph) (c1 : list N) (cands used : list (list N)) : option (list N) * nat :=
+  match cands with
+  | [] => (None, O)
+  | c2 :: r =>
+      if negb (length c2 =? length c1)%nat || set_used c2 used then mol_find g1 g2 c1 r used
+      else if comp_iso g1 g2 c1 c2 then (Some c2, 1%nat)
+      else let '(res, n) := mol_find g1 g2 c1 r used in (res, S n)
+  end.
+
+Fixpoint mol_pairs (g1 g2 : graph) (l1 l2 used : list (list N)) : list (list N * list N) * nat :=
+  match l1 with
+  | [] => ([], O)
+  | c1 :: r =>
+      let '(res, n) := mol_find g1 g2 c1 l2 used in
+      match res with
+      | Some c2 => let '(ps, n') := mol_pairs g1 g2 r l2 (c2 :: used) in ((c1, c2) :: ps, (n + n')%nat)
+      | None => let '(ps, n') := mol_pairs g1 g2 r l2 used in (ps, (n + n')%nat)
+      end
+  end.
+End Mol.
+
+Definition find_mcs_mol_pairs (defs : list N) (prune : bool) (wc : N) (g1 g2 : graph) : list (list N * list N) * nat :=
+  let g1u := prune_graph prune wc g1 in
+  let g2u := prune_graph prune wc g2 in
+  mol_pairs (node_match defs) edge_match g1u g2u (sort_comps (components g1u)) (sort_comps (components g2u)) [].
+
 (* ---------- prune_automorphisms: host node sets ---------- *)
 Fixpoint insertN (x : N) (l : list N) : list N :=
   match l with
@@ -293,6 +338,11 @@ Definition run_matcher (defs : list N) (prune : bool) (wc : N) (g1 g2 : graph) (
 Definition run_matcher_auto (defs : list N) (prune : bool) (wc : N) (g1 g2 : graph) (mcs : bool) : tok :=
   let r := find_common_subgraph defs prune wc g1 g2 mcs in
   L [tbool (r_pattern_is_g1 r); tnat (r_last r); tnat (r_tried r); tset (tlist tN) (host_sets (r_maps r))].
+
+Definition run_mcs_mol (defs : list N) (prune : bool) (wc : N) (g1 g2 : graph) : tok :=
+  let '(ps, n) := find_mcs_mol_pairs defs prune wc g1 g2 in
+  L [tbool true; tnat (fold_right (fun p acc => (length (fst p) + acc)%nat) O ps); tnat n;
+     tset (fun p => L [tset tN (fst p); tset tN (snd p)]) ps].
 
 Definition run_component (defs : list N) (prune : bool) (wc : N) (g1 g2 : graph) (mcs : bool) : tok :=
   let r := find_rc_component defs prune wc g1 g2 mcs in
